@@ -191,8 +191,14 @@ func (v SolutionVehicle) bestMovePlanSingleStop(
 	solution := planUnit.solution()
 	rand := solution.random
 
+	model := solution.model.(*modelImpl)
+
 	for !stop.IsLast() {
 		stop = stop.Next()
+		// a stop is never inserted between two stops that must stay direct neighbours
+		if !stop.Previous().IsFirst() && mustBeNeighbours(model, stop.Previous(), stop) {
+			continue
+		}
 		pos := newStopPosition(
 			stop.Previous(),
 			candidateStop,
